@@ -314,6 +314,8 @@ STMT_RULES = {
     "ternary-then-declaration-used-after": ("(ok == 1) ? int tv = 1; : echo(0); ok = tv;", "int tv = 0; (ok == 1) ? tv = 1; : echo(0); ok = tv;"),
     "ternary-else-declaration-used-after": ("(ok == 1) ? echo(0); : int tv = 1; ok = tv;", "int tv = 0; (ok == 1) ? echo(0); : tv = 1; ok = tv;"),
     "ternary-branch-redeclares-outer": ("int dup = 1; (ok == 1) ? int dup = 2; : echo(0);", "int dup = 1; (ok == 1) ? int dup2 = 2; : echo(0);"),
+    "ternary-branch-second-declarator-used-after": ("(ok == 1) ? qubit ta, tb; : echo(0); h(tb);", "(ok == 1) ? qubit ta, tb; : echo(0); qubit tb2; h(tb2);"),
+    "ternary-else-second-declarator-used-after": ("(ok == 1) ? echo(0); : qubit ta, tb, tc; h(tc);", "(ok == 1) ? echo(0); : qubit ta, tb, tc; qubit tc2; h(tc2);"),
     "ternary-both-branches-declare-same-name": ("(ok == 1) ? int tb = 1; : int tb = 2; ok = tb;", "(ok == 1) ? int tb = 1; : int tb = 2; ok = 1;"),
 }
 STMT_WRAPS = {
